@@ -1,11 +1,69 @@
 (* Properties/C18.v — DHCP leases survive restart; a damaged lease file cannot crash the server.
-   Only statements, each closed by [exact] of a lemma proved in Proofs/Lease*.v. *)
-From PV Require Import Base.Prelude Model.LeaseBase Model.Lease Model.LeaseKnown Proofs.Lease.
+   Only statements, each closed by [exact] of a lemma proved in Proofs/Lease*.v.
+
+   The model (Model/Lease.v) starts from the document yaml.Unmarshal returns; gopkg.in/yaml.v2 enters as the
+   Section variables print/parse with the named hypothesis yaml_roundtrip.  The crash-point clause about
+   damaged file TEXT (every prefix / corruption) depends on yaml.v2 and is not a theorem: it is searched by
+   enumeration in the correspondence run (harness/cmd/c18/corrupt.go), with the theorems below telling what
+   ANY accepted document can lead to. *)
+From PV Require Import Base.Prelude Model.LeaseBase Model.Lease Model.LeaseKnown
+  Proofs.Lease Proofs.LeaseNew Proofs.LeaseRestart.
+From Coq Require Import Permutation.
 Open Scope N_scope.
 
-(* For ANY document (however the YAML text was damaged before yaml.Unmarshal accepted it): every lease that
-   loadByteArray puts in the table is Allocated, lies inside the file's home subnet net1, has a non-empty
-   client id and occurs in the document. *)
+(* ---------------- restart ---------------- *)
+
+(* Take ANY state s the constructor returned for configuration c (home LAN given as a network address), let
+   the lease table evolve to ANY table t (distinct keys) outside the recorded class, save it in ANY map
+   iteration order, print and parse it with a round-tripping YAML library, and construct again under ANY
+   capture state: the new handler has the same subnets and exactly the acknowledged (client id, MAC, IP)
+   bindings.  [known_C18_restart]: some Allocated lease has an empty client id or an address outside net1. *)
+Theorem C18_restart_partial :
+  forall (text : Type) (print : doc -> text) (parse : text -> option doc),
+  yaml_roundtrip text print parse ->
+  forall c cap0 i0 s cap t ord,
+    home_masked c ->
+    new c cap0 i0 = Ok s ->
+    known_C18_restart (d_n1 s) t = false ->
+    NoDup (map l_cid t) -> Permutation ord t ->
+    exists s', new c cap (input_of_text text parse (print (save (d_n1 s) (d_n2 s) ord))) = Ok s'
+               /\ d_n1 s' = d_n1 s /\ d_n2 s' = d_n2 s
+               /\ d_table s' = map (restored cap (d_n2 s)) (save_leases ord)
+               /\ Permutation (bindings (d_table s')) (acked_bindings t).
+Proof. exact restart_partial. Qed.
+Print Assumptions C18_restart_partial.
+
+(* The full statement (every table) is refuted by the faithful model: an acknowledged lease with an empty
+   client id / an address outside net1 is saved and then dropped by loadByteArray (YAML = identity here). *)
+Theorem C18_restart_refuted :
+  exists c s t,
+    home_masked c /\ new c (fun _ => false) ReadErr = Ok s /\ NoDup (map l_cid t)
+    /\ known_C18_restart (d_n1 s) t = true
+    /\ exists s', new c (fun _ => false) (input_of_text doc Some (save (d_n1 s) (d_n2 s) t)) = Ok s'
+                  /\ ~ Permutation (bindings (d_table s')) (acked_bindings t).
+Proof. exact restart_refuted. Qed.
+Print Assumptions C18_restart_refuted.
+
+Example C18_restart_nonvacuous :
+  exists s, home_masked ex_cfg /\ new ex_cfg (fun _ => false) ReadErr = Ok s
+    /\ known_C18_restart (d_n1 s) [{| l_rec := ex_rec; l_sub := 1 |}] = false
+    /\ acked_bindings [{| l_rec := ex_rec; l_sub := 1 |}] <> [].
+Proof. exact restart_nonvacuous. Qed.
+Print Assumptions C18_restart_nonvacuous.
+
+(* The validation loop gives back exactly the saved records (file order; subnet chosen from the capture state). *)
+Theorem C18_load_loop_roundtrip : forall cap s1 s2 rs,
+  (forall r, In r rs -> (r_state r =? 2)%Z = true /\ rec_ok s1 r = true) ->
+  NoDup (map r_cid rs) ->
+  load_loop cap (Some s1) (Some s2) rs [] = Ok (map (restored cap s2) rs).
+Proof. exact load_loop_roundtrip. Qed.
+Print Assumptions C18_load_loop_roundtrip.
+
+(* ---------------- any document ---------------- *)
+
+(* For ANY document (however the text was damaged before yaml.Unmarshal accepted it): every lease that
+   loadByteArray puts in the table is Allocated, lies inside the file's net1, has a non-empty client id and
+   occurs in the document. *)
 Theorem C18_load_filters : forall cap d n1 n2 t,
   load cap d = Ok (n1, n2, t) ->
   forall l, In l t ->
@@ -21,11 +79,69 @@ Example C18_load_filters_nonvacuous :
 Proof. exact load_filters_nonvacuous. Qed.
 Print Assumptions C18_load_filters_nonvacuous.
 
-(* The validation loop gives back exactly the saved records (in file order, with the subnet chosen from the
-   capture state) when every record passes the validation and client ids are distinct. *)
-Theorem C18_load_loop_roundtrip : forall cap s1 s2 rs,
-  (forall r, In r rs -> (r_state r =? 2)%Z = true /\ rec_ok s1 r = true) ->
-  NoDup (map r_cid rs) ->
-  load_loop cap (Some s1) (Some s2) rs [] = Ok (map (restored cap s2) rs).
-Proof. intros cap s1 s2 rs H1 H2. exact (load_loop_all_ok cap s1 s2 rs [] H1 H2). Qed.
-Print Assumptions C18_load_loop_roundtrip.
+(* For ANY input of the constructor: every lease of the constructed table is Allocated, has a client id,
+   occurs in the document, and — unless the file's net1 prefix is shorter than the home LAN's — lies inside
+   the HOME subnet of the session. *)
+Theorem C18_new_table_partial : forall c cap i s,
+  new c cap i = Ok s ->
+  forall l, In l (d_table s) ->
+    allocated l = true
+    /\ r_cid (l_rec l) <> []
+    /\ (exists d, i = Doc d /\ In (l_rec l) (d_leases d))
+    /\ (known_C18_bits c i = false -> contains (c_home c) (r_ip (l_rec l)) = true).
+Proof. exact new_table_filters. Qed.
+Print Assumptions C18_new_table_partial.
+
+(* configChanged compares LAN.Addr() only: net1 192.168.0.0/16 on home 192.168.0.0/24 restores 192.168.1.5 *)
+Theorem C18_new_in_home_refuted :
+  exists s l, new ex_cfg (fun _ => false) (Doc ex_doc_wide) = Ok s /\ In l (d_table s)
+              /\ contains (c_home ex_cfg) (r_ip (l_rec l)) = false
+              /\ known_C18_bits ex_cfg (Doc ex_doc_wide) = true.
+Proof. exact new_in_home_refuted. Qed.
+Print Assumptions C18_new_in_home_refuted.
+
+(* ---------------- totality ---------------- *)
+
+(* Config.New neither panics nor loops, for every input outside the three recorded panic classes
+   (known_C18_panic: 1 = IPv6 lan in the file, 2 = valid lease but no net1, 3 = captured lease but no net2),
+   given that the NIC's home LAN is an IPv4 prefix. *)
+Theorem C18_new_total_partial : forall c cap i,
+  is4 (paddr (c_home c)) = true ->
+  known_C18_panic cap i = 0 ->
+  new c cap i <> Panic /\ new c cap i <> Fuel.
+Proof. exact new_total_partial. Qed.
+Print Assumptions C18_new_total_partial.
+
+(* the predicate is exact: every input of a recorded class panics *)
+Theorem C18_new_panics_in_class : forall c cap i,
+  cfg_ok c = true -> known_C18_panic cap i <> 0 -> new c cap i = Panic.
+Proof. exact new_panics_in_class. Qed.
+Print Assumptions C18_new_panics_in_class.
+
+Theorem C18_new_total_refuted_nil_net1 :
+  new ex_cfg (fun _ => false) (Doc ex_doc_nonet1) = Panic /\ known_C18_panic (fun _ => false) (Doc ex_doc_nonet1) = 2.
+Proof. exact new_total_refuted_net1. Qed.
+Print Assumptions C18_new_total_refuted_nil_net1.
+
+Theorem C18_new_total_refuted_nil_net2 :
+  new ex_cfg (fun _ => true) (Doc ex_doc_nonet2) = Panic /\ known_C18_panic (fun _ => true) (Doc ex_doc_nonet2) = 3.
+Proof. exact new_total_refuted_net2. Qed.
+Print Assumptions C18_new_total_refuted_nil_net2.
+
+Theorem C18_new_total_refuted_ipv6_lan :
+  new ex_cfg (fun _ => false) (Doc ex_doc_v6) = Panic /\ known_C18_panic (fun _ => false) (Doc ex_doc_v6) = 1.
+Proof. exact new_total_refuted_v6. Qed.
+Print Assumptions C18_new_total_refuted_ipv6_lan.
+
+Example C18_new_total_nonvacuous :
+  is4 (paddr (c_home ex_cfg)) = true /\ known_C18_panic (fun _ => false) (Doc ex_doc) = 0
+  /\ exists s, new ex_cfg (fun _ => false) (Doc ex_doc) = Ok s /\ d_table s <> [].
+Proof. exact new_total_nonvacuous. Qed.
+Print Assumptions C18_new_total_nonvacuous.
+
+(* every state the constructor returns carries subnets that re-validate to themselves and match the
+   configuration (so the next restart does not reset) *)
+Theorem C18_new_stable : forall c cap i s,
+  home_masked c -> new c cap i = Ok s -> cfg_ok c = true /\ stable c (d_n1 s) (d_n2 s).
+Proof. exact new_stable. Qed.
+Print Assumptions C18_new_stable.
